@@ -436,3 +436,51 @@ def replay_case(check, case):
     if isinstance(case, str) and case.isdigit():
         case = int(case)
     return evaluate(case)[check]
+
+
+# ------------------------------------------------------------------ the command line tool (observe_at: splitter.main)
+def splitter_case(seed):
+    """splitter.main in-process on the PDB and on the mmCIF text of a generated table within PDB limits, every output format:
+    each written model file, read back by the reader of its format, holds exactly the rows of that model"""
+    import contextlib, io, sys, tempfile
+    from rnapolis import splitter
+    from rnapolis.parser_v2 import parse_cif_atoms, parse_pdb_atoms
+    recs, info, pdb, cif = synthetic(seed)
+    truth = truth_rows(recs)
+    errs = []
+    with tempfile.TemporaryDirectory(prefix="c09-split-") as d:
+        for src_fmt, text in (("pdb", pdb), ("cif", cif)):
+            if text is None:
+                continue
+            src = os.path.join(d, f"t.{src_fmt}")
+            with open(src, "w") as f:
+                f.write(text)
+            for out_fmt in ("PDB", "mmCIF", "keep"):
+                if info["blank_chain"] and out_fmt == "mmCIF":
+                    continue  # a blank chain identifier exists in PDB only
+                out = os.path.join(d, f"out-{src_fmt}-{out_fmt}")
+                argv, so, se = sys.argv, io.StringIO(), io.StringIO()
+                try:
+                    sys.argv = ["splitter", "--output", out, "--format", out_fmt, src]
+                    with contextlib.redirect_stdout(so), contextlib.redirect_stderr(se):
+                        try:
+                            splitter.main()
+                        except SystemExit as e:
+                            if e.code not in (0, None):
+                                errs.append(f"splitter {src_fmt}->{out_fmt}:exit: status {e.code}: {se.getvalue()[:160]}")
+                                continue
+                finally:
+                    sys.argv = argv
+                is_pdb = out_fmt == "PDB" or (out_fmt == "keep" and src_fmt == "pdb")
+                for m in sorted({r["model"] for r in truth}):
+                    want = [r for r in truth if r["model"] == m]
+                    p = os.path.join(out, f"t_model_{m}." + ("pdb" if is_pdb else "cif"))
+                    if not os.path.exists(p):
+                        errs.append(f"splitter {src_fmt}->{out_fmt}:missing: no file for model {m}: {se.getvalue()[:200]}")
+                        continue
+                    with open(p) as f:
+                        got = rows_of(parse_pdb_atoms(f.read()) if is_pdb else parse_cif_atoms(f.read()))
+                    tag = f"splitter {src_fmt}->{out_fmt}"
+                    errs += compare(tag, want, got, NOCHARGE)
+                    errs += compare(tag, want, got, ["charge"], zero_is_absent=(is_pdb or src_fmt == "pdb"))
+    return errs
